@@ -185,9 +185,8 @@ theorem authenticate_ghost (cfg : Config) (st : SessState) (h : Header) (t : Tra
 theorem login_ok_iff (norm : String → String) (cfg : Config) (st : SessState)
     (basic : Option (String × String)) (id role : String) (tok : Wire) :
     (loginConfigFile norm cfg st basic).1 = .ok id role tok ↔
-      ∃ raw pw e u r, basic = some (raw, pw) ∧ cfg.users.lookup raw = some e ∧
-        e.hash = ⟨norm pw, norm raw, e.salt⟩ ∧ id = norm raw ∧
-        cfg.users.lookup (norm raw) = some u ∧ role = u.role ∧
+      ∃ raw pw u r, basic = some (raw, pw) ∧ id = norm raw ∧
+        cfg.users.lookup id = some u ∧ u.hash = ⟨norm pw, id, u.salt⟩ ∧ role = u.role ∧
         cfg.roles.lookup u.role = some r ∧ r.isAllowed .Login none = true ∧
         tok = .sealed true cfg.key st.nonce (.session id role) := by
   constructor
@@ -196,31 +195,28 @@ theorem login_ok_iff (norm : String → String) (cfg : Config) (st : SessState)
     split at h
     · cases h
     · rename_i raw pw
+      dsimp only at h
       split at h
       · cases h
-      · rename_i e he
-        dsimp only at h
+      · rename_i u hu
         split at h
         · cases h
         · rename_i hh
           split at h
           · cases h
-          · rename_i u hu
+          · rename_i r hr
             split at h
             · cases h
-            · rename_i r hr
-              split at h
-              · cases h
-              · rename_i hal
-                simp only [encode, LoginRes.ok.injEq] at h
-                obtain ⟨h1, h2, h3⟩ := h
-                subst h1 h2 h3
-                refine ⟨raw, pw, e, u, r, rfl, he, ?_, rfl, hu, rfl, hr, ?_, rfl⟩
-                · simpa [eq_comm] using hh
-                · simpa using hal
-  · intro ⟨raw, pw, e, u, r, hb, he, hh, hid, hu, hrole, hr, hal, htok⟩
+            · rename_i hal
+              simp only [encode, LoginRes.ok.injEq] at h
+              obtain ⟨h1, h2, h3⟩ := h
+              subst h1 h2 h3
+              refine ⟨raw, pw, u, r, rfl, rfl, hu, ?_, rfl, hr, ?_, rfl⟩
+              · simpa [eq_comm] using hh
+              · simpa using hal
+  · intro ⟨raw, pw, u, r, hb, hid, hu, hh, hrole, hr, hal, htok⟩
     subst hb hid hrole htok
-    simp [loginConfigFile, he, ← hh, hu, hr, hal, encode]
+    simp [loginConfigFile, hu, ← hh, hr, hal, encode]
 
 /-- Login changes the state only when it succeeds, and then by exactly one `encode`. -/
 theorem login_state (norm : String → String) (cfg : Config) (st : SessState)
@@ -234,21 +230,18 @@ theorem login_state (norm : String → String) (cfg : Config) (st : SessState)
   split
   · right; simp
   · rename_i raw pw
+    dsimp only
     split
     · right; simp
-    · rename_i e he
-      dsimp only
+    · rename_i u hu
       split
       · right; simp
       · split
         · right; simp
-        · rename_i u hu
+        · rename_i r hr
           split
           · right; simp
-          · rename_i r hr
-            split
-            · right; simp
-            · left; exact ⟨norm raw, u.role, _, rfl, rfl, rfl⟩
+          · left; exact ⟨norm raw, u.role, _, rfl, rfl, rfl⟩
 
 theorem login_sound (norm : String → String) (cfg : Config) (st : SessState)
     (basic : Option (String × String)) (hs : CacheSound cfg.key st) :
